@@ -423,6 +423,19 @@ namespace {
       return out;
    }
 
+
+   // A String node with the same characters that is NOT of the current Lexicon's pool: interned by a guest Lexicon that lives as long as
+   // the process.  The constructors taking a `const String&` tell names apart by spelling, so they answer the same node for it.
+   const ipr::String& foreign_string(const ipr::String& s)
+   {
+      static ipr::impl::Lexicon guest;
+      return guest.get_string(s.characters());
+   }
+   template<class X>
+   void same_through_foreign(const X& own, const X& through_foreign, const char* what)
+   {
+      if (&own != &through_foreign) notes += std::string("@foreign_string_") + what + "=0\n";
+   }
    std::string run(History& h, const std::vector<std::string>& w)
    {
       auto& L = h.lex;
@@ -510,9 +523,17 @@ namespace {
 
       // -- name_factory
       if (op == "string") { need(1); return h.name(L.get_string(view(w[1]))); }
-      if (op == "identifier_s") { need(1); return h.name(L.get_identifier(h.node<ipr::String>(w[1]))); }
+      if (op == "identifier_s") {
+         need(1); auto& str = h.node<ipr::String>(w[1]); auto& r = L.get_identifier(str);
+         same_through_foreign(r, L.get_identifier(foreign_string(str)), "identifier");
+         return h.name(r);
+      }
       if (op == "identifier_w") { need(1); return h.name(L.get_identifier(view(w[1]))); }
-      if (op == "operator_s") { need(1); return h.name(L.get_operator(h.node<ipr::String>(w[1]))); }
+      if (op == "operator_s") {
+         need(1); auto& str = h.node<ipr::String>(w[1]); auto& r = L.get_operator(str);
+         same_through_foreign(r, L.get_operator(foreign_string(str)), "operator");
+         return h.name(r);
+      }
       if (op == "operator_w") { need(1); return h.name(L.get_operator(view(w[1]))); }
       if (op == "suffix") { need(1); return h.name(L.get_suffix(h.node<ipr::Identifier>(w[1]))); }
       if (op == "conversion") { need(1); return h.name(L.get_conversion(h.node<ipr::Type>(w[1]))); }
@@ -526,10 +547,18 @@ namespace {
       if (op == "symbol") { need(2); return h.name(L.get_symbol(h.node<ipr::Name>(w[1]), h.node<ipr::Type>(w[2]))); }
       if (op == "label") { need(1); return h.name(L.get_label(h.node<ipr::Identifier>(w[1]))); }
       if (op == "this") { need(1); return h.name(L.get_this(h.node<ipr::Type>(w[1]))); }
-      if (op == "literal_s") { need(2); return h.name(L.get_literal(h.node<ipr::Type>(w[1]), h.node<ipr::String>(w[2]))); }
+      if (op == "literal_s") {
+         need(2); auto& ty = h.node<ipr::Type>(w[1]); auto& str = h.node<ipr::String>(w[2]); auto& r = L.get_literal(ty, str);
+         same_through_foreign(r, L.get_literal(ty, foreign_string(str)), "literal");
+         return h.name(r);
+      }
       if (op == "literal_w") { need(2); return h.name(L.get_literal(h.node<ipr::Type>(w[1]), view(w[2]))); }
       if (op == "linkage_w") { need(1); return h.name(L.get_linkage(view(w[1]))); }
-      if (op == "linkage_s") { need(1); return h.name(L.get_linkage(h.node<ipr::String>(w[1]))); }
+      if (op == "linkage_s") {
+         need(1); auto& str = h.node<ipr::String>(w[1]); auto& r = L.get_linkage(str);
+         same_through_foreign(r, L.get_linkage(foreign_string(str)), "linkage");
+         return h.name(r);
+      }
       if (op == "calling_convention") { need(1); return h.name(L.get_calling_convention(view(w[1]))); }
 
       // -- generative factories (operands for the requests above) and the translation unit
